@@ -46,6 +46,12 @@ CHECKS = {
         text="~39k (quick) distinct items = {struct, enum} x 6 field shapes x subsets of attribute palettes at container/variant/field level (valid keys, unknown keys, wrong value forms, ts and serde spellings) are TLC states; each is run through the real derive: never a panic; everything the documentation/validity clauses call invalid is diagnosed (derive error or rustc error); accepted items compile, `optional` on a non-Option fails with the IsOption diagnostic; rejected items produce ordinary compile errors through the real entry point; plus every identifier x rule of the C09 domain never panics. Outcome class predicted by the transcription for every item (drift = 0 on the unchanged tree).",
         note="Trusted: TLC, rustc, the item renderer. Known findings KF-C16-1/2 (bodies of overridden containers / skipped variants are not validated) are recorded in known_findings.json. Generics, where-clauses and raw/keyword identifiers inside items are not generated yet.",
         design_ref="DESIGN.md section 5 (C16), 3.3, appendix E"),
+    "C10": dict(
+        category="model_checking",
+        technique="TLA+ model of attribute-list parsing and ts-over-serde merging (Attrs.tla); TLC enumerates, per position and key, the spelling pairs the property equates and checks them on the model; both spellings expanded in-process by the real derive under each feature set; equality of implementations judged by TLC (Trace_AttrEquiv.tla)",
+        text="For every position {struct, enum, variant, field} and every key supported in both namespaces: #[serde(K)] vs #[ts(K)]; one list vs split lists; ts value vs a different serde value in both list orders; each of 10 unsupported or unparseable serde entries (skip_serializing_if, rename(serialize=..), bound(..), default = path, other, alias, deny_unknown_fields, borrow, getter, crate) at every index of 1- and 2-entry lists; and with serde-compat off a serde list vs none - under serde-compat on/off x no-serde-warnings on/off. Each pair must expand without error to the same implementation.",
+        note="Trusted: TLC; canonicalisation sorts only the dependency statements and where-predicates (HashSet order). `#[serde(with)]` is excluded from 'inert' because ts-rs documents that it demands #[ts(as/type)].",
+        design_ref="DESIGN.md section 5 (C10), 3.3"),
 }
 
 NOT_YET = "check not built yet (work in progress, see DESIGN.md appendix B)"
